@@ -258,6 +258,48 @@ func vk_SetNonblock(fd int, nb bool) error {
 
 func vk_SetsockoptInt(fd, level, opt, value int) error { return nil }
 
+func vk_GetsockoptInt(fd, level, opt int) (int, error) {
+	f := vk.get(fd, "getsockopt")
+	if f == nil {
+		return -1, syscall.EBADF
+	}
+	if opt == syscall.SO_ERROR {
+		e := int(f.connResult)
+		return e, nil
+	}
+	return 0, nil
+}
+
+func vk_Socket(domain, typ, proto int) (int, error) {
+	f := vk.newFd(vkSockStream)
+	return f.fd, nil
+}
+
+func vk_Connect(fd int, sa syscall.Sockaddr) error {
+	f := vk.get(fd, "connect")
+	if f == nil {
+		return syscall.EBADF
+	}
+	f.connecting = true
+	return syscall.EINPROGRESS
+}
+
+func vk_Getsockname(fd int) (syscall.Sockaddr, error) {
+	return &syscall.SockaddrUnix{Name: ""}, nil
+}
+
+// connectDone completes a non-blocking connect (environment step).
+func (f *vkFd) connectDone(result syscall.Errno) {
+	f.connecting = false
+	f.connResult = result
+	if result != 0 {
+		f.rerr = result
+		f.werr = syscall.EPIPE
+	}
+	f.edgeIn = true
+	f.edgeOut = true
+}
+
 func vk_Sendfile(outfd, infd int, offset *int64, count int) (int, error) {
 	out := vk.get(outfd, "sendfile-out")
 	in := vk.get(infd, "sendfile-in")
